@@ -1,4 +1,712 @@
-//! C14 engine (eksblowfish state machine vs reference model) - see below.
-use serde_json::Value;
-pub fn main(_args: &[String]) { eprintln!("HARNESS-ERROR: c14 engine not built yet"); std::process::exit(2) }
-pub fn replay(_v: &Value) { eprintln!("HARNESS-ERROR: c14 engine not built yet"); std::process::exit(2) }
+//! C14 engine: the eksblowfish primitives (`bcrypt` feature) as a state machine,
+//! stepped in lock-step with an independent reference model over seeded call
+//! histories (init / expand / salted-expand / encrypt / clone / relocate / drop /
+//! trait-level block calls / the bcrypt cost-loop shape).
+//!
+//! The reference model is written from the Provos-Mazieres description: a
+//! byte-wise cyclic stream reader, a textbook 16-round Feistel network, one
+//! 64-bit block per step. Its initial P-array and S-boxes are computed from the
+//! hexadecimal expansion of pi (gen/pi_hex.py), not copied from the repository.
+
+use crate::prng::{Digest, Prng, hex, run_seed, unhex};
+use blowfish_zb::Blowfish;
+use cipher::{BlockCipherDecrypt, BlockCipherEncrypt, KeyInit};
+use serde_json::{Value, json};
+use std::collections::HashSet;
+use std::time::Instant;
+
+fn arg<'a>(args: &'a [String], name: &str) -> Option<&'a str> {
+    args.iter().position(|a| a == name).and_then(|i| args.get(i + 1)).map(|s| s.as_str())
+}
+
+fn die(msg: &str) -> ! {
+    eprintln!("HARNESS-ERROR: {}", msg);
+    std::process::exit(2)
+}
+
+// ---------------------------------------------------------------------------
+// reference model
+
+#[derive(Clone)]
+pub struct Model {
+    p: Vec<u32>,      // 18
+    s: Vec<Vec<u32>>, // 4 x 256
+}
+
+pub struct PiConsts {
+    words: Vec<u32>,
+}
+
+impl PiConsts {
+    pub fn load(path: &str) -> PiConsts {
+        let h = std::fs::read_to_string(path).unwrap_or_else(|e| die(&format!("pi digits {}: {}", path, e)));
+        let h = h.trim();
+        if h.len() < 8 * (18 + 1024) {
+            die("pi digit file too short");
+        }
+        let words = (0..18 + 1024).map(|i| u32::from_str_radix(&h[8 * i..8 * i + 8], 16).unwrap_or_else(|_| die("bad pi digits"))).collect();
+        PiConsts { words }
+    }
+}
+
+/// cyclic big-endian byte stream
+struct Stream<'a> {
+    data: &'a [u8],
+    pos: usize,
+}
+
+impl Stream<'_> {
+    fn byte(&mut self) -> u8 {
+        let b = self.data[self.pos % self.data.len()];
+        self.pos += 1;
+        b
+    }
+    fn word(&mut self) -> u32 {
+        let mut w = 0u32;
+        for _ in 0..4 {
+            w = w.wrapping_mul(256).wrapping_add(self.byte() as u32);
+        }
+        w
+    }
+}
+
+impl Model {
+    pub fn init(pi: &PiConsts) -> Model {
+        Model { p: pi.words[..18].to_vec(), s: (0..4).map(|i| pi.words[18 + 256 * i..18 + 256 * (i + 1)].to_vec()).collect() }
+    }
+    fn f(&self, x: u32) -> u32 {
+        let b = x.to_be_bytes();
+        let h = self.s[0][b[0] as usize].wrapping_add(self.s[1][b[1] as usize]);
+        (h ^ self.s[2][b[2] as usize]).wrapping_add(self.s[3][b[3] as usize])
+    }
+    pub fn encrypt(&self, lr: [u32; 2]) -> [u32; 2] {
+        let (mut l, mut r) = (lr[0], lr[1]);
+        for i in 0..16 {
+            l ^= self.p[i];
+            r ^= self.f(l);
+            core::mem::swap(&mut l, &mut r);
+        }
+        core::mem::swap(&mut l, &mut r);
+        r ^= self.p[16];
+        l ^= self.p[17];
+        [l, r]
+    }
+    pub fn decrypt(&self, lr: [u32; 2]) -> [u32; 2] {
+        let (mut l, mut r) = (lr[0], lr[1]);
+        for i in (2..18).rev() {
+            l ^= self.p[i];
+            r ^= self.f(l);
+            core::mem::swap(&mut l, &mut r);
+        }
+        core::mem::swap(&mut l, &mut r);
+        r ^= self.p[1];
+        l ^= self.p[0];
+        [l, r]
+    }
+    /// ExpandKey(state, salt, key) of the eksblowfish paper; `salt = None` is plain Blowfish keying.
+    pub fn expand(&mut self, salt: Option<&[u8]>, key: &[u8]) {
+        let mut ks = Stream { data: key, pos: 0 };
+        for i in 0..18 {
+            self.p[i] ^= ks.word();
+        }
+        let zero = [0u8; 1];
+        let mut ss = Stream { data: salt.unwrap_or(&zero), pos: 0 };
+        let mut block = [0u32; 2];
+        for i in 0..9 {
+            block[0] ^= ss.word();
+            block[1] ^= ss.word();
+            block = self.encrypt(block);
+            self.p[2 * i] = block[0];
+            self.p[2 * i + 1] = block[1];
+        }
+        for b in 0..4 {
+            for j in 0..128 {
+                block[0] ^= ss.word();
+                block[1] ^= ss.word();
+                block = self.encrypt(block);
+                self.s[b][2 * j] = block[0];
+                self.s[b][2 * j + 1] = block[1];
+            }
+        }
+    }
+}
+
+// ---------------------------------------------------------------------------
+// operations
+
+#[derive(Clone, Debug, PartialEq)]
+pub enum BOp {
+    Init { i: u8 },
+    Expand { i: u8, key: Vec<u8> },
+    Salted { i: u8, salt: Vec<u8>, key: Vec<u8> },
+    Encrypt { i: u8, lr: [u32; 2] },
+    TraitBlock { i: u8, dec: bool, block: [u8; 8] },
+    Clone { i: u8, j: u8 },
+    Relocate { i: u8 },
+    Drop { i: u8 },
+    /// salted_expand, then 2^cost x { expand(key), expand(salt) }
+    CostLoop { i: u8, cost: u8, salt: Vec<u8>, key: Vec<u8> },
+    /// expand(key) on a fresh state equals Blowfish::new_from_slice(key)
+    KeyingEquiv { key: Vec<u8> },
+    /// salted_expand(0..0, key) equals expand(key) starting from state i
+    ZeroSaltEquiv { i: u8, zeros: u16, key: Vec<u8> },
+}
+
+impl BOp {
+    fn to_json(&self) -> Value {
+        match self {
+            BOp::Init { i } => json!({"op":"bc_init_state","i":i}),
+            BOp::Expand { i, key } => json!({"op":"bc_expand_key","i":i,"key":hex(key)}),
+            BOp::Salted { i, salt, key } => json!({"op":"salted_expand_key","i":i,"salt":hex(salt),"key":hex(key)}),
+            BOp::Encrypt { i, lr } => json!({"op":"bc_encrypt","i":i,"l":lr[0],"r":lr[1]}),
+            BOp::TraitBlock { i, dec, block } => json!({"op":"trait_block","i":i,"dec":dec,"block":hex(block)}),
+            BOp::Clone { i, j } => json!({"op":"clone","i":i,"j":j}),
+            BOp::Relocate { i } => json!({"op":"relocate","i":i}),
+            BOp::Drop { i } => json!({"op":"drop","i":i}),
+            BOp::CostLoop { i, cost, salt, key } => json!({"op":"cost_loop","i":i,"cost":cost,"salt":hex(salt),"key":hex(key)}),
+            BOp::KeyingEquiv { key } => json!({"op":"keying_equiv","key":hex(key)}),
+            BOp::ZeroSaltEquiv { i, zeros, key } => json!({"op":"zero_salt_equiv","i":i,"zeros":zeros,"key":hex(key)}),
+        }
+    }
+    fn from_json(v: &Value) -> Option<BOp> {
+        let u = |k: &str| v.get(k).and_then(|x| x.as_u64());
+        let h = |k: &str| v.get(k).and_then(|x| x.as_str()).and_then(unhex);
+        Some(match v.get("op")?.as_str()? {
+            "bc_init_state" => BOp::Init { i: u("i")? as u8 },
+            "bc_expand_key" => BOp::Expand { i: u("i")? as u8, key: h("key")? },
+            "salted_expand_key" => BOp::Salted { i: u("i")? as u8, salt: h("salt")?, key: h("key")? },
+            "bc_encrypt" => BOp::Encrypt { i: u("i")? as u8, lr: [u("l")? as u32, u("r")? as u32] },
+            "trait_block" => BOp::TraitBlock { i: u("i")? as u8, dec: v.get("dec")?.as_bool()?, block: h("block")?.try_into().ok()? },
+            "clone" => BOp::Clone { i: u("i")? as u8, j: u("j")? as u8 },
+            "relocate" => BOp::Relocate { i: u("i")? as u8 },
+            "drop" => BOp::Drop { i: u("i")? as u8 },
+            "cost_loop" => BOp::CostLoop { i: u("i")? as u8, cost: u("cost")? as u8, salt: h("salt")?, key: h("key")? },
+            "keying_equiv" => BOp::KeyingEquiv { key: h("key")? },
+            "zero_salt_equiv" => BOp::ZeroSaltEquiv { i: u("i")? as u8, zeros: u("zeros")? as u16, key: h("key")? },
+            _ => return None,
+        })
+    }
+    fn kind(&self) -> &'static str {
+        match self {
+            BOp::Init { .. } => "init",
+            BOp::Expand { .. } => "expand",
+            BOp::Salted { .. } => "salted",
+            BOp::Encrypt { .. } => "encrypt",
+            BOp::TraitBlock { .. } => "trait_block",
+            BOp::Clone { .. } => "clone",
+            BOp::Relocate { .. } => "relocate",
+            BOp::Drop { .. } => "drop",
+            BOp::CostLoop { .. } => "cost_loop",
+            BOp::KeyingEquiv { .. } => "keying_equiv",
+            BOp::ZeroSaltEquiv { .. } => "zero_salt_equiv",
+        }
+    }
+}
+
+const NSTATES: usize = 4;
+
+struct BWorld<'a> {
+    pi: &'a PiConsts,
+    real: Vec<Option<Box<Blowfish>>>,
+    model: Vec<Option<Model>>,
+    probes: u64,
+    step: usize,
+}
+
+#[derive(Clone, Debug)]
+pub struct BViolation {
+    pub class: String,
+    pub step: usize,
+    pub detail: String,
+}
+
+fn probe_pairs(n: usize, salt: u64) -> Vec<[u32; 2]> {
+    let mut p = Prng::new(0xBC14 ^ salt);
+    (0..n).map(|_| { let x = p.next(); [x as u32, (x >> 32) as u32] }).collect()
+}
+
+impl<'a> BWorld<'a> {
+    fn new(pi: &'a PiConsts) -> Self {
+        BWorld { pi, real: (0..NSTATES).map(|_| None).collect(), model: vec![None; NSTATES], probes: 0, step: 0 }
+    }
+
+    fn compare(&mut self, i: usize, n: usize, what: &str) -> Result<(), BViolation> {
+        if let (Some(r), Some(m)) = (&self.real[i], &self.model[i]) {
+            for lr in probe_pairs(n, self.step as u64 * 131 + i as u64) {
+                self.probes += 1;
+                let a = r.bc_encrypt(lr);
+                let b = m.encrypt(lr);
+                if a != b {
+                    return Err(BViolation {
+                        class: "state-diverged".into(),
+                        step: self.step,
+                        detail: format!("after {} the state of instance {} differs from the reference: bc_encrypt({:08x},{:08x}) = {:08x},{:08x}, reference {:08x},{:08x}", what, i, lr[0], lr[1], a[0], a[1], b[0], b[1]),
+                    });
+                }
+            }
+        }
+        Ok(())
+    }
+
+    fn apply(&mut self, op: &BOp) -> Result<bool, BViolation> {
+        let r = self.apply_inner(op);
+        self.step += 1;
+        r
+    }
+
+    fn apply_inner(&mut self, op: &BOp) -> Result<bool, BViolation> {
+        let idx = |i: u8| (i as usize) % NSTATES;
+        match op {
+            BOp::Init { i } => {
+                let i = idx(*i);
+                self.real[i] = Some(Box::new(Blowfish::bc_init_state()));
+                self.model[i] = Some(Model::init(self.pi));
+                self.compare(i, 64, "bc_init_state")?;
+            }
+            BOp::Expand { i, key } => {
+                let i = idx(*i);
+                if key.is_empty() || self.real[i].is_none() {
+                    return Ok(false);
+                }
+                self.real[i].as_mut().unwrap().bc_expand_key(key);
+                self.model[i].as_mut().unwrap().expand(None, key);
+                self.compare(i, 64, "bc_expand_key")?;
+            }
+            BOp::Salted { i, salt, key } => {
+                let i = idx(*i);
+                if key.is_empty() || salt.is_empty() || self.real[i].is_none() {
+                    return Ok(false);
+                }
+                self.real[i].as_mut().unwrap().salted_expand_key(salt, key);
+                self.model[i].as_mut().unwrap().expand(Some(salt), key);
+                self.compare(i, 64, "salted_expand_key")?;
+            }
+            BOp::Encrypt { i, lr } => {
+                let i = idx(*i);
+                if let (Some(r), Some(m)) = (&self.real[i], &self.model[i]) {
+                    let (a, b) = (r.bc_encrypt(*lr), m.encrypt(*lr));
+                    if a != b {
+                        return Err(BViolation { class: "encrypt".into(), step: self.step, detail: format!("bc_encrypt({:08x},{:08x}) = {:08x},{:08x}, reference {:08x},{:08x}", lr[0], lr[1], a[0], a[1], b[0], b[1]) });
+                    }
+                } else {
+                    return Ok(false);
+                }
+            }
+            BOp::TraitBlock { i, dec, block } => {
+                let i = idx(*i);
+                if let (Some(r), Some(m)) = (&self.real[i], &self.model[i]) {
+                    let mut b = cipher::Block::<Blowfish>::default();
+                    b.copy_from_slice(block);
+                    let lr = [u32::from_be_bytes(block[..4].try_into().unwrap()), u32::from_be_bytes(block[4..].try_into().unwrap())];
+                    let want = if *dec { m.decrypt(lr) } else { m.encrypt(lr) };
+                    if *dec {
+                        r.decrypt_block(&mut b);
+                    } else {
+                        r.encrypt_block(&mut b);
+                    }
+                    let mut w = [0u8; 8];
+                    w[..4].copy_from_slice(&want[0].to_be_bytes());
+                    w[4..].copy_from_slice(&want[1].to_be_bytes());
+                    if b[..] != w[..] {
+                        return Err(BViolation { class: "trait-block".into(), step: self.step, detail: format!("{} of {} on the evolving state = {}, reference {}", if *dec { "decrypt_block" } else { "encrypt_block" }, hex(block), hex(&b), hex(&w)) });
+                    }
+                } else {
+                    return Ok(false);
+                }
+            }
+            BOp::Clone { i, j } => {
+                let (i, j) = (idx(*i), idx(*j));
+                if i == j || self.real[i].is_none() {
+                    return Ok(false);
+                }
+                let c = self.real[i].as_ref().unwrap().clone();
+                self.real[j] = Some(c);
+                self.model[j] = self.model[i].clone();
+                self.compare(j, 64, "clone")?;
+            }
+            BOp::Relocate { i } => {
+                let i = idx(*i);
+                match self.real[i].take() {
+                    Some(b) => {
+                        let moved: Blowfish = *b;
+                        let _pad = vec![0u8; 4096 + self.step * 16];
+                        self.real[i] = Some(Box::new(moved));
+                        self.compare(i, 16, "relocate")?;
+                    }
+                    None => return Ok(false),
+                }
+            }
+            BOp::Drop { i } => {
+                let i = idx(*i);
+                if self.real[i].is_none() {
+                    return Ok(false);
+                }
+                self.real[i] = None;
+                self.model[i] = None;
+            }
+            BOp::CostLoop { i, cost, salt, key } => {
+                let i = idx(*i);
+                if key.is_empty() || salt.is_empty() || self.real[i].is_none() {
+                    return Ok(false);
+                }
+                self.real[i].as_mut().unwrap().salted_expand_key(salt, key);
+                self.model[i].as_mut().unwrap().expand(Some(salt), key);
+                for _ in 0..(1u32 << cost.min(&12)) {
+                    self.real[i].as_mut().unwrap().bc_expand_key(key);
+                    self.real[i].as_mut().unwrap().bc_expand_key(salt);
+                    self.model[i].as_mut().unwrap().expand(None, key);
+                    self.model[i].as_mut().unwrap().expand(None, salt);
+                }
+                self.compare(i, 256, "the bcrypt cost loop")?;
+            }
+            BOp::KeyingEquiv { key } => {
+                if key.len() < 4 || key.len() > 56 {
+                    return Ok(false);
+                }
+                let a = match Blowfish::new_from_slice(key) {
+                    Ok(a) => a,
+                    Err(_) => return Ok(false),
+                };
+                let mut b = Blowfish::bc_init_state();
+                b.bc_expand_key(key);
+                let mut c = Blowfish::bc_init_state();
+                c.salted_expand_key(&[0u8; 16], key);
+                let mut m = Model::init(self.pi);
+                m.expand(None, key);
+                for lr in probe_pairs(256, 77) {
+                    self.probes += 1;
+                    let (x, y, z, w) = (a.bc_encrypt(lr), b.bc_encrypt(lr), c.bc_encrypt(lr), m.encrypt(lr));
+                    if x != y || x != z || x != w {
+                        return Err(BViolation { class: "keying-equivalence".into(), step: self.step, detail: format!("key {}: new_from_slice / init+bc_expand_key / init+salted_expand_key(0^16) / reference give {:08x?} {:08x?} {:08x?} {:08x?} on {:08x?}", hex(key), x, y, z, w, lr) });
+                    }
+                }
+            }
+            BOp::ZeroSaltEquiv { i, zeros, key } => {
+                let i = idx(*i);
+                if key.is_empty() || *zeros == 0 || self.real[i].is_none() {
+                    return Ok(false);
+                }
+                let mut a = (**self.real[i].as_ref().unwrap()).clone();
+                let mut b = a.clone();
+                a.bc_expand_key(key);
+                b.salted_expand_key(&vec![0u8; *zeros as usize], key);
+                for lr in probe_pairs(256, 99) {
+                    self.probes += 1;
+                    if a.bc_encrypt(lr) != b.bc_encrypt(lr) {
+                        return Err(BViolation { class: "zero-salt-equivalence".into(), step: self.step, detail: format!("from the state of instance {}: bc_expand_key(key) and salted_expand_key(0^{}, key) differ, key {}", i, zeros, hex(key)) });
+                    }
+                }
+            }
+        }
+        Ok(true)
+    }
+
+    fn final_check(&mut self) -> Result<(), BViolation> {
+        for i in 0..NSTATES {
+            self.compare(i, 4096, "the whole history")?;
+        }
+        Ok(())
+    }
+}
+
+fn gen_len(rng: &mut Prng) -> usize {
+    // biased to lengths not divisible by 4, so the cyclic reader wraps mid-word
+    match rng.below(10) {
+        0 => 1,
+        1 => 72,
+        2 => rng.range(73, 300) as usize,
+        3 => 4 * rng.range(1, 18) as usize,
+        _ => {
+            let l = rng.range(1, 72) as usize;
+            if l % 4 == 0 { l + 1 } else { l }
+        }
+    }
+}
+
+fn gen_ops(rng: &mut Prng, max_cost: u8) -> Vec<BOp> {
+    let n = rng.range(4, 40) as usize;
+    let mut ops = vec![BOp::Init { i: 0 }];
+    let w: [u32; 11] = [6, 14, 14, 10, 8, 5, 4, 3, 3, 3, 4];
+    let mut w2 = w;
+    for x in w2.iter_mut() {
+        if rng.chance(1, 5) {
+            *x = 0;
+        }
+    }
+    w2[0] = w2[0].max(1);
+    for _ in 0..n {
+        let i = rng.below(NSTATES as u64) as u8;
+        let op = match rng.weighted(&w2) {
+            0 => BOp::Init { i },
+            1 => BOp::Expand { i, key: { let l = gen_len(rng); rng.bytes(l) } },
+            2 => BOp::Salted { i, salt: { let l = if rng.chance(1, 2) { 16 } else { gen_len(rng) }; rng.bytes(l) }, key: { let l = gen_len(rng); rng.bytes(l) } },
+            3 => BOp::Encrypt { i, lr: [rng.next() as u32, rng.next() as u32] },
+            4 => BOp::TraitBlock { i, dec: rng.chance(1, 2), block: rng.next().to_le_bytes() },
+            5 => BOp::Clone { i, j: rng.below(NSTATES as u64) as u8 },
+            6 => BOp::Relocate { i },
+            7 => BOp::Drop { i },
+            8 => BOp::CostLoop { i, cost: rng.below(max_cost as u64 + 1) as u8, salt: { let l = if rng.chance(2, 3) { 16 } else { gen_len(rng) }; rng.bytes(l) }, key: { let l = gen_len(rng); rng.bytes(l) } },
+            9 => BOp::KeyingEquiv { key: { let l = rng.range(4, 56) as usize; rng.bytes(l) } },
+            _ => BOp::ZeroSaltEquiv { i, zeros: rng.range(1, 40) as u16, key: { let l = gen_len(rng); rng.bytes(l) } },
+        };
+        ops.push(op);
+    }
+    ops
+}
+
+fn execute(pi: &PiConsts, ops: &[BOp]) -> (Option<BViolation>, u64, Vec<&'static str>) {
+    let mut w = BWorld::new(pi);
+    let mut kinds = Vec::new();
+    for op in ops {
+        match w.apply(op) {
+            Ok(true) => kinds.push(op.kind()),
+            Ok(false) => {}
+            Err(v) => return (Some(v), w.probes, kinds),
+        }
+    }
+    if let Err(v) = w.final_check() {
+        return (Some(v), w.probes, kinds);
+    }
+    (None, w.probes, kinds)
+}
+
+fn shrink(pi: &PiConsts, ops: &[BOp], v: &BViolation) -> (Vec<BOp>, BViolation) {
+    let mut ops: Vec<BOp> = ops[..(v.step + 1).min(ops.len())].to_vec();
+    let mut best = v.clone();
+    let mut test = |c: &[BOp]| -> Option<BViolation> {
+        match execute(pi, c).0 {
+            Some(x) if x.class == v.class => Some(x),
+            _ => None,
+        }
+    };
+    if test(&ops).is_none() {
+        ops = ops.to_vec();
+    }
+    let mut changed = true;
+    while changed {
+        changed = false;
+        let mut i = ops.len();
+        while i > 0 {
+            i -= 1;
+            if ops.len() == 1 {
+                break;
+            }
+            let mut c = ops.clone();
+            c.remove(i);
+            if let Some(x) = test(&c) {
+                ops = c;
+                best = x;
+                changed = true;
+            }
+        }
+    }
+    // shorter keys / salts, lower cost
+    for i in 0..ops.len() {
+        loop {
+            let mut c = ops.clone();
+            let ok = match &mut c[i] {
+                BOp::Expand { key, .. } | BOp::KeyingEquiv { key } | BOp::ZeroSaltEquiv { key, .. } if key.len() > 1 => { key.pop(); true }
+                BOp::Salted { salt, key, .. } | BOp::CostLoop { salt, key, .. } if key.len() > 1 || salt.len() > 1 => {
+                    if key.len() > 1 { key.pop(); } else { salt.pop(); }
+                    true
+                }
+                _ => false,
+            };
+            if !ok {
+                break;
+            }
+            match test(&c) {
+                Some(x) => { ops = c; best = x; }
+                None => break,
+            }
+        }
+        if let BOp::CostLoop { cost, .. } = &ops[i] {
+            for k in 0..*cost {
+                let mut c = ops.clone();
+                if let BOp::CostLoop { cost: cc, .. } = &mut c[i] { *cc = k; }
+                if let Some(x) = test(&c) { ops = c; best = x; break; }
+            }
+        }
+    }
+    (ops, best)
+}
+
+fn replay_value(seed: u64, ops: &[BOp], v: &BViolation, meta: Value) -> Value {
+    json!({"format": "block-ciphers-sim-replay/1", "property": "C14", "engine": "c14", "seed": seed,
+           "ops": ops.iter().map(|o| o.to_json()).collect::<Vec<_>>(),
+           "violation": {"property": "C14", "class": v.class, "step": v.step, "detail": v.detail}, "meta": meta})
+}
+
+pub fn main(args: &[String]) {
+    let t0 = Instant::now();
+    let tier = arg(args, "--tier").unwrap_or("quick").to_string();
+    let seed: u64 = arg(args, "--seed").and_then(|s| s.parse().ok()).unwrap_or(20261003);
+    let evidence = arg(args, "--evidence").unwrap_or("/verif/evidence/C14.json").to_string();
+    let replay_dir = arg(args, "--replay-dir").unwrap_or("/verif/replays").to_string();
+    let pi_path = arg(args, "--pi").unwrap_or("/verif/.build/pi_hex.txt").to_string();
+    let total: u64 = arg(args, "--total").and_then(|s| s.parse().ok()).unwrap_or(if tier == "quick" { 4000 } else { 400_000 });
+    let workers: u64 = arg(args, "--workers").and_then(|s| s.parse().ok()).unwrap_or(16);
+    let max_cost: u8 = if tier == "quick" { 5 } else { 9 };
+    println!("sim-native c14 tier={} VERIF_SEED={} runs={} workers={}", tier, seed, total, workers);
+    let pi = PiConsts::load(&pi_path);
+    // independent sanity anchor for the derived constants: the classic Blowfish test vector
+    {
+        let mut m = Model::init(&pi);
+        m.expand(None, &[0u8; 8]);
+        if m.encrypt([0, 0]) != [0x4EF9_9745, 0x6198_DD78] {
+            die("reference model does not reproduce the published Blowfish vector (key 0^64, pt 0^64 -> 4EF997456198DD78)");
+        }
+    }
+    struct Part {
+        runs: u64,
+        probes: u64,
+        digests: HashSet<u64>,
+        kinds: std::collections::BTreeMap<&'static str, u64>,
+        viol: Vec<(u64, u64, Vec<BOp>, BViolation)>,
+        samples: Vec<Value>,
+        wrap_midword: u64,
+        long_inputs: u64,
+    }
+    let parts: Vec<Part> = std::thread::scope(|sc| {
+        let hs: Vec<_> = (0..workers)
+            .map(|w| {
+                let pi = &pi;
+                sc.spawn(move || {
+                    let mut p = Part { runs: 0, probes: 0, digests: HashSet::new(), kinds: Default::default(), viol: vec![], samples: vec![], wrap_midword: 0, long_inputs: 0 };
+                    let mut i = w;
+                    while i < total {
+                        let rs = run_seed(seed ^ 0xC14, i);
+                        let mut rng = Prng::new(rs);
+                        let ops = gen_ops(&mut rng, max_cost);
+                        let (v, probes, kinds) = execute(pi, &ops);
+                        p.runs += 1;
+                        p.probes += probes;
+                        let mut d = Digest::default();
+                        for k in &kinds {
+                            d.str(k);
+                            *p.kinds.entry(k).or_insert(0) += 1;
+                        }
+                        for op in &ops {
+                            match op {
+                                BOp::Expand { key, .. } | BOp::Salted { key, .. } | BOp::CostLoop { key, .. } => {
+                                    d.bytes(key);
+                                    if key.len() % 4 != 0 { p.wrap_midword += 1; }
+                                    if key.len() > 72 { p.long_inputs += 1; }
+                                }
+                                _ => {}
+                            }
+                        }
+                        if kinds.iter().filter(|k| matches!(**k, "expand" | "salted" | "cost_loop")).count() >= 2 {
+                            p.digests.insert(d.finish());
+                        }
+                        if p.samples.len() < 1 && i % 97 == 13 {
+                            p.samples.push(json!({"run": i, "seed": rs, "history": ops.iter().map(|o| o.to_json()).collect::<Vec<_>>()}));
+                        }
+                        if let Some(v) = v {
+                            if p.viol.len() < 2 {
+                                p.viol.push((i, rs, ops, v));
+                            }
+                        }
+                        i += workers;
+                    }
+                    p
+                })
+            })
+            .collect();
+        hs.into_iter().map(|h| h.join().unwrap_or_else(|_| die("c14 worker panicked"))).collect()
+    });
+    let mut runs = 0;
+    let mut probes = 0;
+    let mut digests: HashSet<u64> = HashSet::new();
+    let mut kinds: std::collections::BTreeMap<&'static str, u64> = Default::default();
+    let mut samples = Vec::new();
+    let mut viols = Vec::new();
+    let (mut wrap, mut long) = (0u64, 0u64);
+    for p in parts {
+        runs += p.runs;
+        probes += p.probes;
+        digests.extend(p.digests);
+        for (k, v) in p.kinds {
+            *kinds.entry(k).or_insert(0) += v;
+        }
+        if samples.len() < 3 {
+            samples.extend(p.samples);
+        }
+        viols.extend(p.viol);
+        wrap += p.wrap_midword;
+        long += p.long_inputs;
+    }
+    let mut out_v = Vec::new();
+    let mut seen = HashSet::new();
+    for (i, rs, ops, v) in &viols {
+        if !seen.insert(v.class.clone()) {
+            continue;
+        }
+        let _ = std::fs::create_dir_all(&replay_dir);
+        let base = format!("{}/C14-{}-{}", replay_dir, seed, i);
+        let _ = std::fs::write(format!("{}.orig.json", base), serde_json::to_string_pretty(&replay_value(*rs, ops, v, json!({"run": i, "minimised": false}))).unwrap());
+        let (mops, mv) = shrink(&pi, ops, v);
+        let path = format!("{}.min.json", base);
+        let _ = std::fs::write(&path, serde_json::to_string_pretty(&replay_value(*rs, &mops, &mv, json!({"run": i, "minimised": true, "ops_before": ops.len(), "ops_after": mops.len()}))).unwrap());
+        out_v.push((path, mv));
+    }
+    let wall = t0.elapsed().as_secs_f64();
+    let ev = json!({
+        "property_id": "C14", "tier": tier, "seed": seed, "level": "exploration",
+        "coverage": {
+            "evaluations": runs,
+            "distinct_nontrivial": digests.len(),
+            "rule": "one evaluation = one seeded history of 5..41 operations over up to 4 coexisting eksblowfish states (init, expand, salted expand, raw encrypt, trait-level block calls on the evolving state, clone, relocate, drop, the bcrypt cost loop up to 2^cost rounds, keying/zero-salt equivalences), every step compared with the reference model through 64 probe encryptions and 4096 at the end. Non-trivial = at least two state-changing expansions were applied; distinct = distinct (operation-kind sequence, key bytes) digests",
+            "samples": samples,
+            "exhaustive": false,
+            "probe_encryptions": probes,
+            "operations_applied": kinds,
+            "reach_probes": {"expansion_inputs_with_len_not_multiple_of_4": wrap, "expansion_inputs_longer_than_72": long, "max_cost": max_cost},
+            "faults_fired": {"relocate": kinds.get("relocate").copied().unwrap_or(0), "clone_then_diverge": kinds.get("clone").copied().unwrap_or(0), "drop_now": kinds.get("drop").copied().unwrap_or(0)},
+            "simulated_time": "n/a - the code under test reads no clock",
+            "runs_per_hour": (runs as f64 / wall.max(1e-9) * 3600.0) as u64,
+            "components": {"real": ["blowfish (bcrypt + zeroize features) from the working tree"], "stub": [], "reference_model": "eksblowfish from the Provos-Mazieres description; constants derived from pi by gen/pi_hex.py and anchored on the published Blowfish test vector"},
+        },
+        "assumptions": ["state equality is observational (probe encryptions), which leaves a single wrong S-box word undetected with probability < 2^-300 per run",
+                        "there is no schedule or fault dimension beyond the operation history, clone, relocation and drop: this is model-based checking of a state machine over seeded histories"],
+        "wall_s": wall,
+        "violations": out_v.len(),
+    });
+    if let Some(dir) = std::path::Path::new(&evidence).parent() {
+        let _ = std::fs::create_dir_all(dir);
+    }
+    std::fs::write(&evidence, serde_json::to_string_pretty(&ev).unwrap()).unwrap_or_else(|e| die(&format!("write evidence: {}", e)));
+    println!("runs={} distinct_nontrivial={} probe_encryptions={} wall={:.1}s", runs, digests.len(), probes, wall);
+    if !out_v.is_empty() {
+        for (p, v) in &out_v {
+            println!("{{\"class\":\"{}\",\"step\":{},\"detail\":{}}}", v.class, v.step, serde_json::to_string(&v.detail).unwrap());
+            println!("VIOLATION property=C14 replay={}", p);
+        }
+        std::process::exit(1);
+    }
+    println!("OK property=C14 held on {} runs", runs);
+}
+
+pub fn replay(v: &Value) {
+    let pi_path = std::env::var("VERIF_PI").unwrap_or_else(|_| "/verif/.build/pi_hex.txt".to_string());
+    let pi = PiConsts::load(&pi_path);
+    let mut ops = Vec::new();
+    for o in v.get("ops").and_then(|x| x.as_array()).unwrap_or_else(|| die("no ops")) {
+        ops.push(BOp::from_json(o).unwrap_or_else(|| die("bad op")));
+    }
+    match execute(&pi, &ops).0 {
+        Some(x) => {
+            println!("{}", x.detail);
+            let wc = v["violation"]["class"].as_str().unwrap_or("");
+            let ws = v["violation"]["step"].as_u64().unwrap_or(u64::MAX);
+            if x.class == wc && x.step as u64 == ws {
+                println!("REPRODUCED exactly (class {}, step {})", x.class, x.step);
+            } else {
+                println!("REPRODUCED a C14 violation but not the recorded one");
+            }
+            println!("VIOLATION property=C14 replay=<this file>");
+            std::process::exit(1);
+        }
+        None => println!("NOT-REPRODUCED: {} operations applied, state equals the reference throughout", ops.len()),
+    }
+}
